@@ -43,9 +43,13 @@ def load_known(pid):
     return [f for f in d.get("findings", []) if f.get("property") == pid], d.get("fixed", [])
 
 
-def native_replay(C, pid, fc, ob, extra=None):
+def native_replay(C, pid, fc, ob, extra=None, override=None):
     """run the real function on the model's inputs; returns harness output dict"""
     rp = ob["info"].get("replay")
+    if rp and override:
+        rp = dict(rp)
+        rp["params"] = dict(rp["params"])
+        rp["params"].update(override)
     if not rp or fc is None or not fc.file:
         return {"ok": False, "error": "no concrete input tree for this obligation"}
     real_classes = {}
@@ -72,6 +76,9 @@ def native_replay(C, pid, fc, ob, extra=None):
     for label, text in fc.ensures + fc.ensures_exc + inv:
         if isinstance(text, str):
             clauses.append({"label": label, "text": text, "when": "post"})
+    for nm, cond in fc.raises.items():
+        if isinstance(cond, str):
+            clauses.append({"label": "raises[%s]" % nm, "text": cond, "when": "raise-pre"})
     spec = {"pid": pid, "file": fc.file, "qualname": fc.qualname, "params": rp["params"],
             "predicted": rp["predicted"], "ext_returns": rp["ext_returns"], "real_classes": real_classes,
             "requires_of": requires_of, "clauses": clauses, "lets": {k: v for k, v in fc.lets.items()},
@@ -118,8 +125,13 @@ def judge_replay(ob, out):
                 return False, "clause evaluates to %r natively" % c.get("value")
     if kind == "raises":
         obs = out.get("observed", {})
-        if obs.get("outcome") == "raise" and obs.get("exception") == ob["info"].get("exception"):
-            return True, "native run raises %s: %s" % (obs.get("exception"), obs.get("message"))
+        if obs.get("outcome") == "raise" and (obs.get("exception") == ob["info"].get("exception") or
+                                              ob["info"].get("exception") in obs.get("mro", [])):
+            for c in out.get("clauses", []):
+                if c["label"] == label and c.get("value") is True:
+                    return False, "native run raises %s but the declared condition holds" % obs.get("exception")
+            return True, "native run raises %s (%s) although the condition that permits it is false" % (
+                obs.get("exception"), obs.get("message"))
     # fallback: predicted behaviour == observed behaviour => the symbolic path is the real one
     pred = out["spec"]["predicted"]
     obs = out.get("observed", {})
@@ -267,6 +279,17 @@ def run_property(pid, tier="quick", seed=0, only=None, jobs=None, no_replay=Fals
                         rep2, why2 = judge_replay(ob2, out2)
                         if rep2:
                             ob, out, reproduced, why = ob2, out2, rep2, why2
+                            break
+                if not reproduced and fc is not None and fc.replay_seeds:
+                    # abstract models (uninterpreted string functions): try the contract's adversarial seeds
+                    for prm, seeds in fc.replay_seeds.items():
+                        for sd in seeds:
+                            out2 = native_replay(C, pid, fc, ob, override={prm: sd})
+                            rep2, why2 = judge_replay(ob, out2)
+                            if rep2:
+                                out, reproduced, why = out2, rep2, why2 + " [seed %s=%r]" % (prm, sd)
+                                break
+                        if reproduced:
                             break
             rec = {"property": pid, "obligation": name, "clause": a["clause"], "function": a["fn"],
                    "file": getattr(fc, "file", None), "backend": ob["backend"], "model": ob.get("model"),
